@@ -361,7 +361,7 @@ def run_check(prop, tier="quick", seed=0, replay=None):
                             m = mod.canon_model(m)
                         paired.append((c, a, m))
                 for c, a, b in paired:
-                    if "unsupported" in b:
+                    if "unsupported" in b or a == "unsupported":
                         stats["model-unsupported"] = stats.get("model-unsupported", 0) + 1
                         continue
                     if a != b:
